@@ -330,6 +330,9 @@ pub struct Written {
     pub has_bg_hold: bool,
     /// the command closes its own stdout or stderr (`exec >&-`)
     pub closes_streams: bool,
+    /// the command closes the shell's standard input (`exec <&-`): the rest of the script is
+    /// never read
+    pub closes_stdin: bool,
 }
 
 pub fn written(ops: &[Op]) -> Written {
@@ -404,6 +407,7 @@ pub fn written(ops: &[Op]) -> Written {
                 }
             }
             Op::Touch { .. } => {}
+            Op::CloseStdin => w.closes_stdin = true,
         }
     }
     w.status = Some(0);
